@@ -359,6 +359,26 @@ Definition hashed_args (flow : list seg) (p : parsed) : list bytes := concat (ma
 Definition expected_flow_c : list seg := [SCommon; SArch; SProfile].
 Definition expected_flow_p : list seg := [SPre; SArch; SCommon; SProfile; SCwd].
 
+(* --- extra hashed files: util::hash_all turns the LIST of files into the list of digests handed to the key
+   functions.  InOrder = position i holds the digest of file i (whatever order the hashing tasks finish in). *)
+Inductive order_mode := InOrder | OtherOrder.
+
+Definition extra_digests (m : order_mode) (H : bytes -> bytes) (contents : list bytes) : list bytes :=
+  match m with
+  | InOrder => map H contents
+  | OtherOrder => []          (* some permutation that depends on scheduling: nothing is claimed *)
+  end.
+
+(* --- the input path of the preprocessor-level key: AsGiven = cwd joined with the path of the command line (the path
+   itself when absolute), NOT resolved through the file system *)
+Inductive path_mode := AsGiven | OtherPath.
+
+Definition input_path_of (m : path_mode) (cwd inp : bytes) : bytes :=
+  match m with
+  | AsGiven => if (match inp with c :: _ => N.eqb c 47 | [] => false end) then inp else cwd ++ [47] ++ inp
+  | OtherPath => []
+  end.
+
 Definition spec_good (sp : spec) : Prop :=
   shape_c sp = expected_shape_c /\ shape_p sp = expected_shape_p /\ tags_ok sp = true /\ allow_ok sp = true.
 
